@@ -1072,7 +1072,12 @@ class GoogleDocstring:
         lines = []
         for f in self._consume_fields():
             field = f":ivar {f.name}: "
-            lines.extend(self._format_block(field, f.content))
+            desc = self._strip_empty(f.content)
+            if any(desc):
+                # same treatment as parameters: lists and literal blocks need it
+                lines.extend(self._format_block(field, self._fix_field_desc(desc)))
+            else:
+                lines.append(field.rstrip())
             if f.type:
                 lines.append(f":type {f.name}: {self._convert_type(f.type, lineno=f.lineno)}")
 
@@ -1152,6 +1157,10 @@ class GoogleDocstring:
                 _type = _type[pos + 1 : -1]
             _type = " " + _type if _type else ""
             _desc = self._strip_empty(_desc)
+            if any(_desc) and _desc[0].endswith("::"):
+                # a literal block follows the first paragraph: it must stay indented relative to it
+                lines.extend(self._format_block(f":{field_type}{_type}: ", self._fix_field_desc(_desc), padding="    "))
+                continue
             _descs = " " + "\n    ".join(_desc) if any(_desc) else ""
             if _type and not _descs and not prefer_type:
                 _descs = _type
